@@ -87,7 +87,7 @@ def run(ctx):
             closers = [k for k in v.conds(lambda t: True) if id(k.ast) in body_nodes and "raise" in v.leaves(k, True) and (
                 any(isinstance(x, ast.Attribute) and x.attr.startswith(op) and x.attr != op for x in ast.walk(k.ast))
                 or (isinstance(k.ast, ast.Compare) and any(isinstance(x, ast.Constant) and x.value is None for x in ast.walk(k.ast)))
-            ) and mentions(k.ast, "next_token")]
+            )]
             starts = [m for (m, l) in v.cfg.succ[c] if l is True]
             ok = bool(closers)
             if ok:
